@@ -204,6 +204,7 @@ def truthy(v, st=None):
     """Python truth value. 0 / 0.0 / '' / b'' / timedelta(0) / None / empty list are false; objects without __bool__/__len__ are true.
     (floats and bytes are opaque ids: their zero-ness / emptiness is an uninterpreted predicate, so `if x:` on them has BOTH outcomes)"""
     if isinstance(v, PyList) and st is not None: return st.heap.llen[v.addr] > 0
+    if isinstance(v, PyDict) and st is not None: return st.heap.dhas[v.addr] != _z3.K(Val, False)          # a dict is true iff it has some key
     if isinstance(v, PyBool): return v.e
     if isinstance(v, PyInt): return v.e != 0
     if v is None: return BoolVal(False)
@@ -263,6 +264,13 @@ class Exec:
         return self.ev(e.value, st, got, K)
     def ev_JoinedStr(self, e, st, k, K): return k(st, fresh('fstr'))
     def ev_Dict(self, e, st, k, K):
+        if e.keys and all(x is None for x in e.keys):          # {**a, **b, ...}: a new dict, later entries win
+            def got(s, ds):
+                if not all(isinstance(d, PyDict) for d in ds): raise Unsupported("dict unpacking of a value that is not a modelled dict: " + ast.unparse(e)[:80])
+                key = Const('dkey', Val); r = alloc(s); has = Or(*[s.heap.dhas[d.addr][key] for d in ds]); val = s.heap.dval[ds[0].addr][key]
+                for d in ds[1:]: val = If(s.heap.dhas[d.addr][key], s.heap.dval[d.addr][key], val)
+                s.facts.append(ForAll([key], And(s.heap.dhas[r][key] == has, s.heap.dval[r][key] == val))); return k(s, PyDict(r))
+            return self.ev_list(e.values, st, got, K)
         if e.keys: return k(st, fresh('dictdisplay'))
         a = alloc(st); st.pc.append(st.heap.dhas[a] == _z3.K(Val, False)); return k(st, PyDict(a))          # {}: a new, empty, modelled dict
     def ev_List(self, e, st, k, K):
@@ -743,9 +751,14 @@ def merge_states(states):
     try:
         n = 0; pcs = [s.pc for s in states]
         while all(len(p) > n for p in pcs) and all(p[n] is pcs[0][n] or p[n].eq(pcs[0][n]) for p in pcs): n += 1
-        conds = [And(*p[n:]) if len(p) > n else BoolVal(True) for p in pcs]
+        conds0 = [And(*p[n:]) if len(p) > n else BoolVal(True) for p in pcs]
+        # The guards of the joined states need NOT be mutually exclusive (a nondeterministic fork - "user code returns or raises" - adds no
+        # distinguishing literal), so an ite-chain over them would silently prefer the first state and lose the others. A fresh selector makes the
+        # join exact: the merged state is in branch i iff sel == i, and then branch i's own path condition holds.
+        sel = fresh('merge_branch', IntSort())
+        conds = [sel == i for i in range(len(states))]
         m = State(); m.kinds = states[0].kinds
-        m.pc = list(pcs[0][:n]) + [Or(*conds)]
+        m.pc = list(pcs[0][:n]) + [Or(*[And(c, c0) for c, c0 in zip(conds, conds0)])]
         seen = set(); m.facts = []
         for s in states:
             for f in s.facts:
